@@ -114,6 +114,10 @@ type vfpgCfg struct {
 	Neg bool   `json:"neg"`
 	Dir bool   `json:"dir"`
 	TTL string `json:"ttl"`
+	// Exp: the name the export is published under (AbsfsNFS.Export's mountPath), as a token string;
+	// empty = never exported under a name. It names the root of the exported tree and is not a path
+	// inside it, so MNT vectors that start with it must reach the backend like any other path.
+	Exp []string `json:"exp"`
 }
 
 type vfpgClient struct {
@@ -132,6 +136,8 @@ type vfpgClient struct {
 	seen     map[string]bool // distinct (slot, vector) pairs that are not plain letters
 	reqs     int
 	restores int
+	exp      []string // export name of this history (token string), empty if none
+	expMnt   int
 }
 
 func (c *vfpgClient) tree() []M {
@@ -164,7 +170,15 @@ func vfpgNewClient(t testing.TB, tr *vfTrace, tb *vfpgTable, cfg vfpgCfg, hist i
 		opts.DirCacheTimeout = time.Nanosecond
 	}
 	env := vfNewEnv(t, fs, opts)
-	c := &vfpgClient{t: t, env: env, fs: fs, tr: tr, tb: tb, hp: map[uint64][]string{}, seen: map[string]bool{}}
+	if cfg.Exp == nil {
+		cfg.Exp = []string{}
+	}
+	if len(cfg.Exp) > 0 {
+		// what Export(name, port) records (Export itself also opens a TCP listener, which these
+		// histories do not need: they go through HandleCall)
+		env.n.mountPath = tb.bytes(cfg.Exp)
+	}
+	c := &vfpgClient{t: t, env: env, fs: fs, tr: tr, tb: tb, hp: map[uint64][]string{}, seen: map[string]bool{}, exp: cfg.Exp}
 	tr.Emit(M{"ev": "reset", "hist": hist, "seed": int(seed % (1 << 30)), "cfg": cfg, "tree": c.tree()})
 	return c
 }
@@ -481,6 +495,14 @@ func (c *vfpgClient) vector(tr *vfpgTree, v []string, i int, r *rand.Rand) {
 	step("MNT", func() {
 		c.mount(v)
 		c.mount(append([]string{"sl"}, v...))
+		if len(c.exp) > 0 {
+			// mount paths that begin with the export's published name: the name itself followed
+			// directly by the vector (no component boundary), and with a boundary
+			c.note("MNT_EXPORT", v)
+			c.mount(append(append([]string{}, c.exp...), v...))
+			c.mount(append(append(append([]string{}, c.exp...), "sl"), v...))
+			c.expMnt += 2
+		}
 	})
 }
 
@@ -495,7 +517,8 @@ func (c *vfpgClient) both(tr *vfpgTree, v, w []string, i int) {
 }
 
 func vfpgConfigs() []vfpgCfg {
-	return []vfpgCfg{{TTL: "min"}, {TTL: "def", Neg: true, Dir: true}, {TTL: "min", Neg: true}, {TTL: "def", Dir: true}}
+	return []vfpgCfg{{TTL: "min"}, {TTL: "def", Neg: true, Dir: true, Exp: []string{"sl", "a"}}, {TTL: "min", Neg: true},
+		{TTL: "def", Dir: true, Exp: []string{"sl", "b", "sl", "a", "a"}}, {TTL: "min", Exp: []string{"sl", "F5"}}}
 }
 
 // TestVF_PathGuard writes pathguard.ndjson and pathguard.summary.json.
@@ -533,12 +556,13 @@ func TestVF_PathGuard(t *testing.T) {
 	rr.Shuffle(len(vectors), func(a, b int) { vectors[a], vectors[b] = vectors[b], vectors[a] })
 
 	cfgs := vfpgConfigs()
-	hist, reqs, restores := 0, 0, 0
+	hist, reqs, restores, expMnt := 0, 0, 0, 0
 	seen := map[string]bool{}
 	var samples []M
 	finish := func(c *vfpgClient) {
 		reqs += c.reqs
 		restores += c.restores
+		expMnt += c.expMnt
 		for k := range c.seen {
 			seen[k] = true
 		}
@@ -628,5 +652,5 @@ func TestVF_PathGuard(t *testing.T) {
 	}
 
 	vfWriteJSON(t, "pathguard.summary.json", M{"histories": hist, "requests": reqs, "vectors": len(vectors), "exhaustive": nExh, "maxlen": maxLen,
-		"random": len(randoms), "long": len(tb.Long), "planted": planted, "restores": restores, "nontrivial": len(seen), "lines": tr.n, "samples": samples})
+		"random": len(randoms), "long": len(tb.Long), "planted": planted, "restores": restores, "export_mnt": expMnt, "nontrivial": len(seen), "lines": tr.n, "samples": samples})
 }
